@@ -5,3 +5,4 @@ import Props.C16
 #print axioms C16.conditional_while_not_blocking
 #print axioms C16.while_true_break_not_blocking
 #print axioms C16.pure_sound
+#print axioms C16.try_not_blocking
